@@ -1,7 +1,24 @@
 #!/bin/bash
-# Build the Lean project from files on disk only (no network).
+# Build the Lean project from files on disk only (no network): run every translator against /repo's working tree,
+# then build the model and every property module registered in harness/props/*.py.
 set -e
 cd "$(dirname "$0")"
-python3 harness/translate/tlim.py lean/PyFV/Gen/Limiters.lean >/dev/null
-cd lean
-lake build 2>&1 | tail -5
+python3 - <<'EOF'
+import glob, importlib.util, os, subprocess, sys
+sys.path.insert(0, "harness")
+mods, trans = [], {}
+for f in sorted(glob.glob("harness/props/C*.py")):
+    import ast
+    ns = {}
+    for node in ast.parse(open(f).read()).body:
+        if isinstance(node, ast.Assign) and getattr(node.targets[0], "id", None) in ("MODULES", "TRANSLATORS"):
+            ns[node.targets[0].id] = ast.literal_eval(node.value)
+    mods += [m for m in ns.get("MODULES", []) if m not in mods]
+    trans.update(ns.get("TRANSLATORS", {}))
+for name, cmd in trans.items():
+    p = subprocess.run(cmd, shell=True, capture_output=True, text=True)
+    print(f"{name}: {'ok' if p.returncode == 0 else 'FAILED ' + p.stderr[-300:]}")
+p = subprocess.run(["lake", "build", "PyFV", "PyFV.Gen.Limiters"] + mods, cwd="lean", capture_output=True, text=True)
+print("\n".join((p.stdout + p.stderr).strip().split("\n")[-5:]))
+sys.exit(0)      # a module that does not build is reported by the checks (broken obligation), not by setup
+EOF
